@@ -13,13 +13,18 @@ type Sx struct {
 	List   []Sx
 }
 
-func A(s string) Sx                 { return Sx{IsAtom: true, Atom: s} }
-func L(items ...Sx) Sx              { return Sx{List: items} }
-func Sym(s string) Sx               { return A(s) }
-func N(i int64) Sx                  { return A(strconv.FormatInt(i, 10)) }
-func U(i uint64) Sx                 { return A(strconv.FormatUint(i, 10)) }
-func B(b bool) Sx                   { if b { return A("true") }; return A("false") }
-func Tag(t string, items ...Sx) Sx  { return Sx{List: append([]Sx{A(t)}, items...)} }
+func A(s string) Sx    { return Sx{IsAtom: true, Atom: s} }
+func L(items ...Sx) Sx { return Sx{List: items} }
+func Sym(s string) Sx  { return A(s) }
+func N(i int64) Sx     { return A(strconv.FormatInt(i, 10)) }
+func U(i uint64) Sx    { return A(strconv.FormatUint(i, 10)) }
+func B(b bool) Sx {
+	if b {
+		return A("true")
+	}
+	return A("false")
+}
+func Tag(t string, items ...Sx) Sx { return Sx{List: append([]Sx{A(t)}, items...)} }
 func Strs(l []string) Sx {
 	r := Sx{List: []Sx{}}
 	for _, s := range l {
@@ -82,4 +87,97 @@ func (x Sx) String() string {
 	var b strings.Builder
 	x.write(&b)
 	return b.String()
+}
+
+// ParseSx parses one S-expression in the syntax String() prints.
+func ParseSx(s string) (x Sx, err error) {
+	defer func() {
+		if r := recover(); r != nil {
+			err = fmt.Errorf("sexp parse: %v", r)
+		}
+	}()
+	pos := 0
+	var p func() Sx
+	skip := func() {
+		for pos < len(s) && (s[pos] == ' ' || s[pos] == '\t' || s[pos] == '\n' || s[pos] == '\r') {
+			pos++
+		}
+	}
+	hexv := func(c byte) byte {
+		switch {
+		case c >= '0' && c <= '9':
+			return c - '0'
+		case c >= 'a' && c <= 'f':
+			return c - 'a' + 10
+		case c >= 'A' && c <= 'F':
+			return c - 'A' + 10
+		}
+		panic("hex")
+	}
+	p = func() Sx {
+		skip()
+		if pos >= len(s) {
+			panic("eof")
+		}
+		switch s[pos] {
+		case '(':
+			pos++
+			out := Sx{List: []Sx{}}
+			for {
+				skip()
+				if pos >= len(s) {
+					panic("unclosed")
+				}
+				if s[pos] == ')' {
+					pos++
+					return out
+				}
+				out.List = append(out.List, p())
+			}
+		case ')':
+			panic("unexpected )")
+		case '"':
+			pos++
+			var b strings.Builder
+			for {
+				if pos >= len(s) {
+					panic("unclosed string")
+				}
+				c := s[pos]
+				pos++
+				if c == '"' {
+					break
+				}
+				if c == '\\' {
+					d := s[pos]
+					pos++
+					switch d {
+					case 'n':
+						b.WriteByte('\n')
+					case 't':
+						b.WriteByte('\t')
+					case '\\':
+						b.WriteByte('\\')
+					case '"':
+						b.WriteByte('"')
+					case 'x':
+						b.WriteByte(hexv(s[pos])*16 + hexv(s[pos+1]))
+						pos += 2
+					default:
+						panic("bad escape")
+					}
+					continue
+				}
+				b.WriteByte(c)
+			}
+			return A(b.String())
+		}
+		st := pos
+		for pos < len(s) && !strings.ContainsRune(" \t\r\n()\"", rune(s[pos])) {
+			pos++
+		}
+		return A(s[st:pos])
+	}
+	x = p()
+	return x, nil
 }
